@@ -60,6 +60,23 @@ E = [
  ("B10", "benign", [], D+"lz77.go", "\t\tif uint32(dist-1) < uint32(historySize) {", "\t\tif dist >= 1 && dist <= uint32(historySize) {"),
  ("B11", "benign", [], Z+"reader.go", "\tif _, err := io.ReadFull(z.r, z.scratch[0:4]); err != nil {\n\t\tif err == io.EOF {\n\t\t\terr = io.ErrUnexpectedEOF\n\t\t}\n\t\tz.err = err\n\t\treturn n, z.err\n\t}", "\tif _, err := io.ReadFull(z.r, z.scratch[0:4]); err != nil {\n\t\tz.err = err\n\t\tif err == io.EOF {\n\t\t\tz.err = io.ErrUnexpectedEOF\n\t\t}\n\t\treturn n, z.err\n\t}"),
  ("B12", "benign", [], D+"dynamic.go", "\t\tif last && idx == len(c.tokens) {\n\t\t\tc.buf.flushLastByte()\n\t\t}", "\t\tif idx == len(c.tokens) && last {\n\t\t\tc.buf.flushLastByte()\n\t\t}"),
+ ("M01d", "mutant", ["C01"], D+"writer.go", "\tif w.w != nil {\n\t\treturn w.w.Flush()\n\t}\n", ""),
+ ("M03e", "mutant", ["C03", "C18"], F+"decode_amd64.s", "invalid_look_back_distance:\n        SUBQ R15, R10\n        MOVQ $-3, AX", "invalid_look_back_distance:\n        SUBQ R15, R10\n        MOVQ $-4, AX"),
+ ("M04c", "mutant", ["C04"], F+"inflate.go", "\t\tsize := copy(state.headerBuffer[state.headerBuffered:], input)", "\t\tsize := copy(state.headerBuffer[:], input)"),
+ ("M04d", "mutant", ["C04"], F+"reader.go", "\t\t\t_, err := f.rBuf.Discard(discardSize)\n\t\t\tif err != nil {\n\t\t\t\treturn err\n\t\t\t}\n\t\t}\n\t\tf.state.input = nil\n\t}\n\treturn", "\t\t\tfor i := 0; i < discardSize; i++ {\n\t\t\t\tif _, err := f.rBuf.ReadByte(); err != nil {\n\t\t\t\t\treturn err\n\t\t\t\t}\n\t\t\t}\n\t\t}\n\t\tf.state.input = nil\n\t}\n\treturn"),
+ ("M06a", "mutant", ["C06"], G+"gzip.go", "\t\tif z.Name != \"\" {\n\t\t\tz.err = z.writeString(z.Name)\n\t\t\tif z.err != nil {\n\t\t\t\treturn 0, z.err\n\t\t\t}\n\t\t}\n\t\tif z.Comment != \"\" {\n\t\t\tz.err = z.writeString(z.Comment)\n\t\t\tif z.err != nil {\n\t\t\t\treturn 0, z.err\n\t\t\t}\n\t\t}", "\t\tif z.Comment != \"\" {\n\t\t\tz.err = z.writeString(z.Comment)\n\t\t\tif z.err != nil {\n\t\t\t\treturn 0, z.err\n\t\t\t}\n\t\t}\n\t\tif z.Name != \"\" {\n\t\t\tz.err = z.writeString(z.Name)\n\t\t\tif z.err != nil {\n\t\t\t\treturn 0, z.err\n\t\t\t}\n\t\t}"),
+ ("M06d", "mutant", ["C06"], Z+"writer.go", "\tz.digest.Write(p)\n\treturn", "\tz.digest.Write(p[:n/2])\n\treturn"),
+ ("M07b", "mutant", ["C07"], G+"ungzip.go", "\t\tif _, err := io.ReadFull(z.r, z.buf[:8]); err != nil {", "\t\tif n, err := io.ReadFull(z.r, z.buf[:8]); err != nil {"),
+ ("M08a", "mutant", ["C08"], G+"ungzip.go", "\t\tz.decompressor = flate.NewReader(z.r)\n\t} else {", "\t\tz.decompressor = flate.NewReader(bufio.NewReader(z.r))\n\t} else {"),
+ ("M10d", "mutant", ["C10"], D+"bitbuf.go", "func (b *BitBuf) writeEmptyBlock() {\n\tb.WriteBit(0b000, 3)\n\tb.flushLastByte()\n\tb.output[b.idx+0] = 0x00\n\tb.output[b.idx+1] = 0x00\n\tb.output[b.idx+2] = 0xff", "func (b *BitBuf) writeEmptyBlock() {\n\tb.WriteBit(0b000, 3)\n\tb.flushLastByte()\n\tb.output[b.idx+0] = 0x00\n\tb.output[b.idx+1] = 0x00\n\tb.output[b.idx+2] = 0xfe"),
+ ("M10e", "mutant", ["C10"], D+"dynamic.go", "\terr := c.compressBlock(true, true)", "\terr := c.compressBlock(true, false)"),
+ ("M13d", "mutant", ["C13"], Z+"reader.go", "\t} else {\n\t\tz.decompressor.(flate.Resetter).Reset(z.r, nil)\n\t}", "\t}"),
+ ("M14b", "mutant", ["C14"], D+"dynamic.go", "\t\t_, err := c.w.Write(c.buf.output[:c.buf.idx])\n\t\tif err != nil {\n\t\t\treturn err\n\t\t}\n\t\tc.buf.idx = 0", "\t\tc.w.Write(c.buf.output[:c.buf.idx])\n\t\tc.buf.idx = 0"),
+ ("M14d", "mutant", ["C14"], G+"gzip.go", "func (z *Writer) Flush() error {\n\tif z.err != nil {\n\t\treturn z.err\n\t}\n", "func (z *Writer) Flush() error {\n"),
+ ("M17b", "mutant", ["C17"], D+"header.go", "func newDynamicHeader() *dynamicHeader {\n\treturn &dynamicHeader{", "var sharedHeader = &dynamicHeader{\n\tgenerator:  huffman.NewLenLimitedCode(),\n\thistogram:  make([]uint32, 19),\n\trcodes:     make([]uint16, 19),\n\tsource:     make([]uint8, 286+30+1),\n\tcountCache: make([]uint32, (7+1)*2),\n}\n\nfunc newDynamicHeader() *dynamicHeader {\n\tif sharedHeader != nil {\n\t\treturn sharedHeader\n\t}\n\treturn &dynamicHeader{"),
+ ("M18e", "mutant", ["C18"], F+"decode_amd64.s", "        MOVQ AX, errno+48(FP)\n        RET", "        MOVQ AX, errno+40(FP)\n        RET"),
+ ("M18f", "mutant", ["C18"], F+"decode_amd64.s", "end:\n        MOVQ DI, 24(R9)\n        MOVL R8, 32(R9)", "end:\n        MOVQ DI, 24(R9)"),
+ ("M19c", "mutant", ["C19"], D+"lz77.go", "\t\tif uint32(dist-1) < uint32(historySize) {", "\t\tif uint32(dist-1) <= uint32(historySize) {"),
  ("B13", "benign", [], G+"gzip.go", "\t\tif z.Extra != nil {\n\t\t\tz.buf[3] |= 0x04\n\t\t}", "\t\tif z.Extra != nil {\n\t\t\tz.buf[3] |= flagExtra\n\t\t}"),
  ("B14", "benign", [], D+"writer.go", "\tw.err = w.lc.Flush()\n\treturn w.err\n}", "\tif err := w.lc.Flush(); err != nil {\n\t\tw.err = err\n\t\treturn err\n\t}\n\treturn nil\n}"),
  ("B15", "benign", [], D+"writer.go", "\tw.err = w.lc.Close()\n\tif w.err != nil {\n\t\treturn w.err\n\t}\n\tw.err = errWriterClosed\n\treturn nil", "\tif err := w.lc.Close(); err != nil {\n\t\tw.err = err\n\t\treturn err\n\t}\n\tw.err = errWriterClosed\n\treturn nil"),
